@@ -582,14 +582,26 @@ func AppendBinaryValue(data []byte, fieldType uint8, value interface{}) ([]byte,
 				t = AppendUint32(t, microseconds)
 			}
 		case TypeDate:
-			// format: 2006-01-02
-			ts, err := time.Parse("2006-01-02", v)
-			if err != nil {
+			// format: 2006-01-02. MySQL also returns dates with a zero month or day
+			// (2021-00-00) and, with ALLOW_INVALID_DATES, days a calendar does not
+			// have; the binary protocol carries year/month/day as plain numbers, so
+			// they are taken from the text as they are. Text that is not
+			// NNNN-NN-NN is sent as the zero date (as before).
+			var year, month, day uint64
+			var errY, errM, errD error
+			wellFormed := len(v) == 10 && v[4] == '-' && v[7] == '-'
+			if wellFormed {
+				year, errY = strconv.ParseUint(v[0:4], 10, 16)
+				month, errM = strconv.ParseUint(v[5:7], 10, 8)
+				day, errD = strconv.ParseUint(v[8:10], 10, 8)
+				wellFormed = errY == nil && errM == nil && errD == nil
+			}
+			if !wellFormed || (year == 0 && month == 0 && day == 0) {
 				t = append(t, 0)
 			} else {
 				t = append(t, 4)
-				t = AppendUint16(t, uint16(ts.Year()))
-				t = append(t, byte(int(ts.Month())), byte(ts.Day()))
+				t = AppendUint16(t, uint16(year))
+				t = append(t, byte(month), byte(day))
 			}
 		case TypeDuration:
 			timeValue, err := stringToMysqlTime(v)
